@@ -302,12 +302,20 @@ func vDecode(env *ber.Packet) (*Request, error) {
 }
 
 func vDecodeW(w *ber.Packet) (*Request, error) {
+	return vDecodeWL(w, vBool("debugLogging"))
+}
+
+func vDecodeWL(w *ber.Packet, debug bool) (*Request, error) {
 	vSummarise("-encodeLength")
-	c, err := newConn(context.Background(), 1, vNetConn("c"), vLogger(), vMux())
+	// through the connection's reader, as Run delivers it; with the logger at debug
+	// level gldap pretty-prints the packet first, which must not change what is decoded
+	nc := vNetConn("c")
+	vConnFeed(nc, w)
+	c, err := newConn(context.Background(), 1, nc, vLoggerAt(debug), vMux())
 	if err != nil {
 		return nil, err
 	}
-	return newRequest(1, c, &packet{Packet: w})
+	return c.readRequest(1)
 }
 
 const vMaxCtl = 1
@@ -597,7 +605,8 @@ func H_C01_unsupported() {
 		op = ber.Encode(ber.ClassApplication, ber.TypePrimitive, ber.Tag(tag), nil, "")
 		op.Data.Write([]byte(vStr("content")))
 	}
-	r, err := vDecode(refEnvelope(id, op, nil))
+	// silent logger here: pretty-printing a packet with a symbolic tag forks per tag name
+	r, err := vDecodeWL(vWire(refEnvelope(id, op, nil)), false)
 	vAssert(err != nil && r == nil, "unsupported operation is rejected")
 	vReach("unsupported checked")
 }
